@@ -16,7 +16,70 @@ PROP = 'C14'
 RELS = {'en': 'depccg/grammar/en.py', 'ja': 'depccg/grammar/ja.py'}
 
 
-def purity_scan(prop=None, rels=('depccg/grammar/en.py', 'depccg/grammar/ja.py', 'depccg/unification.py', 'depccg/cat.py'), exclude=(), imports=True):
+MUTATORS = ('append', 'extend', 'insert', 'pop', 'remove', 'clear', 'update', 'add', 'discard', 'setdefault', 'sort', 'reverse', 'popitem')
+
+
+def _cached_functions(tree):
+    """names of functions / methods carrying a memoising decorator (functools.lru_cache, functools.cache, cached_property)"""
+    out = set()
+    for fn in ast.walk(tree):
+        if isinstance(fn, ast.FunctionDef):
+            for d in fn.decorator_list:
+                core = d.func if isinstance(d, ast.Call) else d
+                name = core.attr if isinstance(core, ast.Attribute) else (core.id if isinstance(core, ast.Name) else None)
+                if name in ('lru_cache', 'cache', 'cached_property'):
+                    out.add(fn.name)
+    return out
+
+
+def _shared_object_mutations(rel, fn, top, cached):
+    """mutation of an object that outlives the call: a local name bound to the result of a memoised function, or to (an element of) a module-level
+    table, is later stored into / mutated in the same function.  Flow-insensitive within the function; re-binding to a fresh copy (dict(v), list(v),
+    v.copy(), copy.copy/deepcopy) is a different name binding and is not tracked."""
+    shared = {}
+    for n in ast.walk(fn):
+        if isinstance(n, ast.Assign) and len(n.targets) == 1 and isinstance(n.targets[0], ast.Name):
+            v = n.value
+            src = None
+            if isinstance(v, ast.Call):
+                f = v.func
+                fname = f.id if isinstance(f, ast.Name) else (f.attr if isinstance(f, ast.Attribute) else None)
+                if fname in cached:
+                    src = f'the memoised function {fname}'
+                elif isinstance(f, ast.Attribute) and f.attr in ('get', 'setdefault') and isinstance(f.value, ast.Name) and f.value.id in top:
+                    src = f'the module-level table {f.value.id}'
+            base = v
+            while isinstance(base, ast.Subscript):
+                base = base.value
+            if src is None and isinstance(base, ast.Name) and base.id in top and (base is not v or True) and not isinstance(v, ast.Call):
+                src = f'the module-level name {base.id}'
+            if src is not None:
+                shared.setdefault(n.targets[0].id, (src, n.lineno))
+    if not shared:
+        return []
+    # a name that is also bound to something else in the function is left alone (flow-insensitive: cannot tell which binding is mutated)
+    for n in ast.walk(fn):
+        if isinstance(n, ast.Assign):
+            for t in n.targets:
+                if isinstance(t, ast.Name) and t.id in shared and n.lineno != shared[t.id][1]:
+                    shared.pop(t.id)
+    out = []
+    for n in ast.walk(fn):
+        if isinstance(n, ast.Call) and isinstance(n.func, ast.Attribute) and n.func.attr in MUTATORS and isinstance(n.func.value, ast.Name) and n.func.value.id in shared:
+            out.append(f'{rel}:{n.lineno} {n.func.value.id}.{n.func.attr}(...) mutates an object obtained from {shared[n.func.value.id][0]} (it outlives the call: later calls see the change)')
+        if isinstance(n, (ast.Assign, ast.AugAssign, ast.Delete)):
+            tg = n.targets if isinstance(n, (ast.Assign, ast.Delete)) else [n.target]
+            for t in tg:
+                if isinstance(t, (ast.Subscript, ast.Attribute)):
+                    base = t
+                    while isinstance(base, (ast.Subscript, ast.Attribute)):
+                        base = base.value
+                    if isinstance(base, ast.Name) and base.id in shared:
+                        out.append(f'{rel}:{n.lineno} store into an object obtained from {shared[base.id][0]} (it outlives the call: later calls see the change)')
+    return out
+
+
+def purity_scan(prop=None, rels=('depccg/grammar/en.py', 'depccg/grammar/ja.py', 'depccg/unification.py', 'depccg/cat.py'), exclude=(), imports=True, state_only=False):
     """frame obligations, decided on the ast: no function reachable from rule application stores to a module-level name, declares
     global/nonlocal state outside its own closure, or calls id()/hash()/random; categories are frozen dataclasses (C13).
     exclude: top-level functions of the module that are outside the obligation; imports=False skips the module-import clause."""
@@ -27,9 +90,12 @@ def purity_scan(prop=None, rels=('depccg/grammar/en.py', 'depccg/grammar/ja.py',
         skip = {id(n) for fn in tree.body if isinstance(fn, ast.FunctionDef) and fn.name in exclude for n in ast.walk(fn)}
         top = {t.id for st in tree.body if isinstance(st, (ast.Assign, ast.AnnAssign)) for t in (st.targets if isinstance(st, ast.Assign) else [st.target]) if isinstance(t, ast.Name)}
         problems = []
+        cached = _cached_functions(tree)
         for fn in ast.walk(tree):
             if not isinstance(fn, (ast.FunctionDef, ast.Lambda)) or id(fn) in skip:
                 continue
+            if isinstance(fn, ast.FunctionDef):
+                problems.extend(p for p in _shared_object_mutations(rel, fn, top, cached) if p not in problems)
             for n in ast.walk(fn):
                 if isinstance(n, ast.Global):
                     problems.append(f'{rel}:{n.lineno} global statement')
@@ -43,19 +109,20 @@ def purity_scan(prop=None, rels=('depccg/grammar/en.py', 'depccg/grammar/ja.py',
                             problems.append(f'{rel}:{n.lineno} store into module-level {base.id}')
                 if isinstance(n, ast.Call):
                     f = n.func
-                    if isinstance(f, ast.Name) and f.id in ('id', 'hash', 'input', 'open', 'exec', 'eval', 'globals', 'setattr', 'delattr'):
+                    if not state_only and isinstance(f, ast.Name) and f.id in ('id', 'hash', 'input', 'open', 'exec', 'eval', 'globals', 'setattr', 'delattr'):
                         problems.append(f'{rel}:{n.lineno} call of {f.id}()')
-                    if isinstance(f, ast.Attribute) and f.attr in ('append', 'extend', 'insert', 'pop', 'remove', 'clear', 'update', 'add', 'discard', 'setdefault', 'sort', 'reverse', 'popitem') \
+                    if isinstance(f, ast.Attribute) and f.attr in MUTATORS \
                             and isinstance(f.value, ast.Name) and f.value.id in top:
                         problems.append(f'{rel}:{n.lineno} mutation of module-level {f.value.id}')
-                    if isinstance(f, ast.Attribute) and isinstance(f.value, ast.Name) and f.value.id in ('random', 'time', 'os', 'sys'):
+                    if not state_only and isinstance(f, ast.Attribute) and isinstance(f.value, ast.Name) and f.value.id in ('random', 'time', 'os', 'sys'):
                         problems.append(f'{rel}:{n.lineno} call into {f.value.id}')
         for imp in (ast.walk(tree) if imports else ()):
             if isinstance(imp, (ast.Import, ast.ImportFrom)):
                 names = [a.name for a in imp.names] + ([imp.module] if isinstance(imp, ast.ImportFrom) and imp.module else [])
                 if any(n.split('.')[0] in ('random', 'time', 'threading', 'multiprocessing') for n in names):
                     problems.append(f'{rel}:{imp.lineno} imports a source of nondeterminism')
-        recs.append(dict(name=f'{prop}/{rel}/frame: no store to module state, no identity/hash/clock/random dependence', kind='frame',
+        title = 'frame: no store to module state or to objects owned by a cache / module-level table' if state_only else 'frame: no store to module state, no identity/hash/clock/random dependence'
+        recs.append(dict(name=f'{prop}/{rel}/{title}', kind='frame',
                          verdict='discharged' if not problems else 'failed', backend='pyvc-structural', ms=0, inputs=None, detail=problems or None,
                          witness=dict(sites=problems) if problems else None))
     return recs
